@@ -146,13 +146,14 @@ func probe(c *restful.Container, entry string, r routing.Req) (ans string) {
 	case cp.plainRan == 1:
 		return sx.K("plain", sx.N(cp.plain)).String()
 	}
+	sent := rec.Result().Header // the headers as sent, not the live map
 	if rec.Code == 301 || rec.Code == 302 || rec.Code == 307 || rec.Code == 308 {
 		if rec.Code != 301 {
-			return fmt.Sprintf("(redirect%d %s)", rec.Code, sx.H(rec.Header().Get("Location")))
+			return fmt.Sprintf("(redirect%d %s)", rec.Code, sx.H(sent.Get("Location")))
 		}
-		return sx.K("redirect", sx.H(rec.Header().Get("Location"))).String()
+		return sx.K("redirect", sx.H(sent.Get("Location"))).String()
 	}
-	if vs, ok := rec.Header()["Allow"]; ok {
+	if vs, ok := sent["Allow"]; ok {
 		return sx.K("err", sx.N(rec.Code), sx.Hs("allow", routing.AllowSet(strings.Join(vs, ",")))).String()
 	}
 	return sx.K("err", sx.N(rec.Code), sx.A("-")).String()
